@@ -43,6 +43,8 @@ type Term struct {
 	Table string
 	// Fields: for a struct literal value, the field names of Args (a value read back by selector)
 	Fields []string
+	// Fun: for a function value, what it denotes (funcval.go)
+	Fun *FuncVal
 }
 
 func uniq(ss []string) []string {
